@@ -310,6 +310,9 @@ func checkCase(c *Case) (err error) {
 		{"no-route", "GET", "/nothing", fox.NoRouteHandler, "H:noroute"},
 		{"no-method", "POST", "/redir/", fox.NoMethodHandler, "H:nomethod"},
 		{"options", "OPTIONS", "/redir/", fox.OptionsHandler, "H:options"},
+		// automatic OPTIONS is on, but no method has a route for this path: the request ends in the no-route handler, with its chain
+		{"no-route reached by OPTIONS", "OPTIONS", "/nothing/at/all", fox.NoRouteHandler, "H:noroute"},
+		{"no-route reached by a custom method", "BREW", "/nothing", fox.NoRouteHandler, "H:noroute"},
 		{"redirect", "GET", "/redir", fox.RedirectHandler, ""},
 	}
 	for _, s := range special {
